@@ -24,15 +24,16 @@
    Assembly kernels WITHOUT a closed theorem here (covered only by the
    correspondence run of harness/props/C07.py: CPU = interpreter on the
    generated program = Go model = KernSpec on every generated case):
-     add10VW, sub10VW, shl10VU, shr10VU
-     (and the helper blocks decCpy, decCpyInv they tail-jump to).
-   For these four the Go side (the g_ models) is proved below for all inputs;
+     add10VW, sub10VW
+     (including the copies of decCpy they tail-jump to; the copies of decCpy /
+     decCpyInv linked into shr10VU / shl10VU are covered by those theorems).
+   For these two the Go side (the g_ models) is proved below for all inputs;
    what is missing is the loop-invariant proof of the generated assembly program.
    The digit helpers decDigits64, nlz10, trailingZeroDigits have Gallina
    models (L1/KernG.v) tied by the correspondence run only. *)
 From Coq Require Import ZArith List.
 From Dec Require Import Base.Words L1.U64 L1.X86 L1.KernSpec L1.KernG L1.KernAsm
-  L1.KernGScalar L1.KernGProofs L1.AsmProofs L1.AsmProofsVV gen.Consts gen.Tables gen.AsmProgs.
+  L1.KernGScalar L1.KernGProofs L1.AsmProofs L1.AsmProofsVV L1.AsmProofsSh gen.Consts gen.Tables gen.AsmProgs.
 Import ListNotations.
 Open Scope Z_scope.
 
@@ -240,6 +241,30 @@ Theorem C07_asm_sub10VV : forall E n z x y rs m,
 Proof. exact asm_sub10VV_correct. Qed.
 Print Assumptions C07_asm_sub10VV.
 
+(* tab_ok E: the read-only segment of E holds the generated pow10DivTab64 (three
+   words per row), 8-aligned, above the data memory, below 2^64 *)
+Theorem C07_asm_shl10VU : forall E n z x s rs m,
+  tab_ok E -> 8 * e_msize E <= W64 ->
+  0 <= z -> z + Z.of_nat n <= e_msize E -> 0 <= x -> x + Z.of_nat n <= e_msize E ->
+  desc_ok z x (Z.of_nat n) -> 0 <= s <= 18 -> words_ok (rd m x n) = true ->
+  exists N s', (forall f, run (N + S f) E prog_shl10VU
+                             (init_state rs (slice z n ++ slice x n ++ [s]) m) = Some s') /\
+               st_frame s' 7 = snd (spec_shl10VU (rd m x n) s) /\
+               mem_eq (st_mem s') (wr m z (fst (spec_shl10VU (rd m x n) s))).
+Proof. exact asm_shl10VU_correct. Qed.
+Print Assumptions C07_asm_shl10VU.
+
+Theorem C07_asm_shr10VU : forall E n z x s rs m,
+  tab_ok E -> 8 * e_msize E <= W64 ->
+  0 <= z -> z + Z.of_nat n <= e_msize E -> 0 <= x -> x + Z.of_nat n <= e_msize E ->
+  asc_ok z x (Z.of_nat n) -> 0 <= s <= 18 -> words_ok (rd m x n) = true ->
+  exists N s', (forall f, run (N + S f) E prog_shr10VU
+                             (init_state rs (slice z n ++ slice x n ++ [s]) m) = Some s') /\
+               st_frame s' 7 = snd (spec_shr10VU (rd m x n) s) /\
+               mem_eq (st_mem s') (wr m z (fst (spec_shr10VU (rd m x n) s))).
+Proof. exact asm_shr10VU_correct. Qed.
+Print Assumptions C07_asm_shr10VU.
+
 (* non-vacuity: the theorems' hypotheses are satisfiable and the three
    evaluations agree on a concrete in-place call (computed in the kernel) *)
 Example C07_witness :
@@ -250,3 +275,7 @@ Example C07_witness :
     fst (spec_mulAdd10VWW (rd m 0 3) 9999999999999999999 77) ++ [7] /\
   asm_call (KMulAdd10VWW 3 0 0 9999999999999999999 77) 4 m <> Some None.
 Proof. vm_compute. repeat split; try (left; discriminate); discriminate. Qed.
+
+(* the environment of the executable harness satisfies the table hypothesis *)
+Example C07_tab_ok_witness : tab_ok (kenv 4096) /\ 8 * e_msize (kenv 4096) <= W64.
+Proof. unfold tab_ok. vm_compute. repeat split; discriminate. Qed.
